@@ -81,7 +81,7 @@ pub fn run(ctx: Ctx) -> Report {
 pub fn meta() -> CheckMeta {
     CheckMeta {
         level: "exploration",
-        rule: "each case = one client/server Session pair over two seeded MemPipes (capacity, write/read fragmentation, spurious Pending), 1-8 streams, per stream and direction a chunk-size sequence from a boundary-heavy pool (0,1,7,8,8192,16384,65535,65536,70000,131072,200000,...), one of 3 submission paths and 3 read paths, optional random padding scheme and random sched-point yields; in about a quarter of the streams one side ends its direction (FIN) after its last chunk and the other side writes its data only after that FIN has been processed (a FIN ends one direction only: the open direction must still deliver every byte); every byte read is compared online with the position-addressable pattern written at that offset; completeness and 'nothing more' are checked at quiescence under virtual time. distinct_nontrivial counts distinct (chunk sequences, APIs, pipe configs) whose transport fragments frames or that contain a chunk above one frame. End to end: real Client -> real Server with its default TCP handler -> loopback target; uploads of 1 byte to 6 MB (thorough 20 MB) in chunks of 1000-200000 bytes through write_data_frame, ended by a FIN on the stream / by closing the session right after the last write returned / by dropping the whole client, towards a target that starts reading at once or after 400 ms: the target must receive exactly the uploaded bytes (length and FNV hash). In 30% of the cases with sequential opens the server side starts writing on a stream the moment the stream appears, while the client may still be inside open_stream for it or for a later one (a peer that greets on connect). In 15% of the cases the transport of one direction stops delivering at a random byte offset, stays open, and resumes 3-130 virtual seconds later: nothing may be lost, torn or misdelivered because of the wait.".into(),
+        rule: "each case = one client/server Session pair over two seeded MemPipes (capacity, write/read fragmentation, spurious Pending), 1-8 streams, per stream and direction a chunk-size sequence from a boundary-heavy pool (0,1,7,8,8192,16384,65535,65536,70000,131072,200000,...), one of 3 submission paths and 3 read paths, optional random padding scheme and random sched-point yields; in about a quarter of the streams one side ends its direction (FIN) after its last chunk and the other side writes its data only after that FIN has been processed (a FIN ends one direction only: the open direction must still deliver every byte); every byte read is compared online with the position-addressable pattern written at that offset; completeness and 'nothing more' are checked at quiescence under virtual time. distinct_nontrivial counts distinct (chunk sequences, APIs, pipe configs) whose transport fragments frames or that contain a chunk above one frame. End to end: real Client -> real Server with its default TCP handler -> loopback target; uploads of 1 byte to 6 MB (thorough 20 MB) in chunks of 1000-200000 bytes through write_data_frame, ended by a FIN on the stream / by closing the session right after the last write returned (with or without stopping the client's housekeeping; the sockets are dropped only after the target has seen the end, so that the connection ends in order and is not reset), towards a target that starts reading at once or after 400 ms: the target must receive exactly the uploaded bytes (length and FNV hash). In 30% of the cases with sequential opens the server side starts writing on a stream the moment the stream appears, while the client may still be inside open_stream for it or for a later one (a peer that greets on connect). In 15% of the cases the transport of one direction stops delivering at a random byte offset, stays open, and resumes 3-130 virtual seconds later: nothing may be lost, torn or misdelivered because of the wait.".into(),
         assumptions: vec!["tokio's paused clock only advances when every task is idle, so 'still waiting after 3600 virtual s' means blocked forever".into(), "streams are never closed in this workload (C08 covers closing)".into()],
         floors: vec![("bytes_compared", 1_000_000), ("witness_cases", 40), ("cases_with_chunk_above_65535", 5), ("cases_with_empty_chunk", 20), ("streams_with_one_direction_ended_first", 100), ("e2e_uploads_checked", 20)],
         exhaustive: false,
@@ -160,15 +160,17 @@ pub fn run_e2e(ctx: Ctx) -> Report {
             size: usize,
             delay_ms: u64,
             /// 0 = FIN on the stream, session stays; 1 = session.close() right after the last write returned;
-            /// 2 = the whole client (sessions and all) is dropped right after the last write returned
+            /// 2 = the same after the client's housekeeping was stopped (the objects themselves are dropped only after the
+            ///     target has seen the end: an early drop can reset the connection)
             ending: u8,
             chunk: usize,
         }
         let mut rng = Rng::new(seed ^ 0xE01);
         let mut cases = Vec::new();
-        let sizes: Vec<usize> = if quick { vec![1, 70_000, 1_500_000, 6_000_000] } else { vec![1, 7, 70_000, 300_000, 1_500_000, 6_000_000, 20_000_000] };
+        let tiny = std::env::var("VERIF_C01_E2E_TINY").is_ok(); // replay aid: many repetitions of the smallest uploads
+        let sizes: Vec<usize> = if tiny { vec![1, 7] } else if quick { vec![1, 70_000, 1_500_000, 6_000_000] } else { vec![1, 7, 70_000, 300_000, 1_500_000, 6_000_000, 20_000_000] };
         let mut uniq = 0u32;
-        for rep_i in 0..if quick { 1 } else { 6 } {
+        for rep_i in 0..if tiny { 80 } else if quick { 1 } else { 6 } {
             for &size in &sizes {
                 for delay_ms in [0u64, 400] {
                     for ending in 0..3u8 {
@@ -195,6 +197,10 @@ pub fn run_e2e(ctx: Ctx) -> Report {
                     delays.lock().unwrap().insert(dest, c.delay_ms);
                     let pat = Pattern::new(seed, c.uniq as u64, 0);
                     let mut want_h = 0xcbf29ce484222325u64;
+                    // the objects that own the TCP connection are kept until the target has seen the end of the upload:
+                    // dropping the socket right after close() can turn the orderly end (close_notify, FIN) into a reset
+                    // when something unread sits in its receive buffer, and what a reset may cost is TCP's business
+                    let mut keep_alive: Vec<Box<dyn std::any::Any + Send>> = Vec::new();
                     let r: Result<(), String> = async {
                         let client = netkit::make_client(&server_addr, netkit::PASSWORD, engine::default_padding(), netkit::quiet_pool());
                         let (stream, session) = tokio::time::timeout(Duration::from_secs(20), client.create_proxy_stream((ip.to_string(), tport))).await.map_err(|_| "open timeout".to_string())?.map_err(|e| format!("open failed: {e}"))?;
@@ -218,11 +224,11 @@ pub fn run_e2e(ctx: Ctx) -> Report {
                             _ => {
                                 client.stop_session_pool_cleanup().await;
                                 let _ = tokio::time::timeout(Duration::from_secs(10), session.close()).await;
-                                drop(stream);
-                                drop(session);
-                                drop(client);
                             }
                         }
+                        keep_alive.push(Box::new(stream));
+                        keep_alive.push(Box::new(session));
+                        keep_alive.push(Box::new(client));
                         Ok(())
                     }
                     .await;
@@ -241,6 +247,7 @@ pub fn run_e2e(ctx: Ctx) -> Report {
                         }
                         tokio::time::sleep(Duration::from_millis(20)).await;
                     }
+                    drop(keep_alive);
                     results.lock().unwrap().push((c, r.map(|_| last), want_h));
                 }
             })
@@ -248,7 +255,7 @@ pub fn run_e2e(ctx: Ctx) -> Report {
         }
         let results = std::mem::take(&mut *results.lock().unwrap());
         for (c, r, want_h) in results {
-            let ending = ["fin_on_stream", "session_closed_after_last_write", "client_dropped_after_last_write"][c.ending as usize];
+            let ending = ["fin_on_stream", "session_closed_after_last_write", "session_closed_and_client_stopped_after_last_write"][c.ending as usize];
             let case = json!({"kind": "c01-e2e", "size": c.size, "chunk": c.chunk, "target_read_delay_ms": c.delay_ms, "ending": ending, "seed": seed.to_string()});
             rep.case(Some(hash_str(&case.to_string())));
             match r {
